@@ -48,7 +48,10 @@ def confirm(name, wt, pid, run_tests=True):
             rct, ot = sh("%s -m pytest -q -p no:cacheprovider --timeout=900 unittests 2>&1 | tail -3" % PY, cwd=scratch, timeout=1800)
             m["ran"]["testsuite_with_patch"] = ot.strip().splitlines()[-1] if ot.strip() else ""
             m["ran"]["testsuite_failed_tests"] = [l for l in ot.splitlines() if l.startswith("FAILED")]
-        ok = rc0 == 0 and rca == 0 and rc1 == 1 and (not run_tests or ("81 passed" in m["ran"]["testsuite_with_patch"] and "1 failed" in m["ran"]["testsuite_with_patch"]))
+        ts = m["ran"].get("testsuite_with_patch", "")
+        # baseline of the pinned tree: 81 passed + 1 known failure; after the fix of the defect behind that failure: 82 passed
+        base_ok = ("81 passed" in ts and "1 failed" in ts) or ("82 passed" in ts and "failed" not in ts)
+        ok = rc0 == 0 and rca == 0 and rc1 == 1 and (not run_tests or base_ok)
         m["confirmed"] = bool(ok)
     finally:
         sh("git -C /repo worktree remove --force %s" % scratch)
